@@ -310,9 +310,22 @@ FRAME = ["scoped_same(old(env).rt, final(env).rt)"]
 UNDER_F = [f"r.is_ok() ==> final(env).rt.under_stack@.len() == old(env).rt.under_stack@.len() - {F0}.sig.under_args + {F0}.sig.under_outputs"]
 
 
+ERRARGS = {
+    # total number of values the modifier may touch (its own signature's args), as a spec expression over f = ops@[0]
+    "dip": "f.sig.args + 1", "on": "max(f.sig.args as int, 1)", "by": "f.sig.args as int", "above": "f.sig.args as int", "below": "f.sig.args as int",
+    "with": "f.sig.args as int", "off": "f.sig.args as int", "both": "2 * f.sig.args", "dipn": "f.sig.args + n", "onsub": "max(f.sig.args as int, n as int)",
+    "bysub": "max(f.sig.args as int, n as int)", "withsub": "max(f.sig.args as int, n as int)",
+}
+
+
 def rt_arm(name, fn, arm, props, req, ens, hints=(), desc="", sig=RTSIG, sub_if=None, impl=None, impl_name=""):
-    U(id=f"C07.e2.rt.arm_{name}", props=props, kind="arm", file=RP, impl=impl, impl_name=impl_name, fn=fn, arm=arm, sub_if=sub_if,
-      target="", sig=sig.format(name="rt_arm_" + name), tail="Ok(())", requires=list(req), ensures=list(ens) + FRAME, hints=list(hints), desc=desc)
+    ens = list(ens)
+    if name in ERRARGS and not any("r.is_err()" in e for e in ens):
+        # the failure clause of IH-runtime is itself inductive: a failing modifier touches nothing beneath ITS arguments
+        ens.append("r.is_err() && ops@.len() == 1 ==> ({ let f = ops@[0]; let s = " + S + "; let k = monus(s.len() as int, " + ERRARGS[name] + ");"
+                   " final(env).rt.stack@.len() >= k && final(env).rt.stack@.subrange(0, k) =~= s.subrange(0, k) })")
+    U(id=f"C07.e2.rt.arm_{name}", props=props + (["C11"] if name in ERRARGS else []), kind="arm", file=RP, impl=impl, impl_name=impl_name, fn=fn, arm=arm, sub_if=sub_if,
+      target="", sig=sig.format(name="rt_arm_" + name), tail="Ok(())", requires=list(req), ensures=ens + FRAME, hints=list(hints), desc=desc)
 
 
 def let(a="a"):
